@@ -9,6 +9,7 @@ import Mahotas.Proofs.C14Families
 import Mahotas.Proofs.C14Hitmiss
 import Mahotas.Proofs.C14Centre
 import Mahotas.Proofs.C14RegSpec
+import Mahotas.Proofs.C01Dispatch
 open Mahotas Mahotas.C14
 
 /-- **C14-T1 (local extrema).** For every image of every rank and shape, every pixel `p` inside it and
@@ -424,3 +425,39 @@ example :
       intro r hr
       have hall : ∀ r ∈ allPos A.shape, beats false (A.getD r 0) (A.getD [0, 1] 0) = false := by decide
       exact hall r ((C01.mem_allPos A.shape r).mpr hr))
+
+/-- **the default / integer structuring elements** (`Bc=None`, `Bc=1`, `4`, `8`, `6`, any Python integer): the
+driver obtains the element through C01's model of `get_structuring_elem` (the `translate_sizes` table
+extracted from `morph.py`, the literal 3×3 cross, the cross loop). For every image of every rank, every dtype
+the element is cast to and every integer `v` (or `None`): the element is the cross `crossElem d r` of radius
+`r = seRadius d v` on `3 × … × 3` — a member of the cross/box/disk family — hence on it the model of
+`locmax`/`locmin` prints the definition and the model of `regmax`/`regmin` marks exactly the regional plateaus,
+with no hypothesis left about the neighbourhood. -/
+theorem C14_extrema_default_elem (dt : DT) (isMin : Bool) (A : Img Int) (arg : C01.BcArg)
+    (harg : arg = .none ∨ ∃ v : Int, arg = .int v) :
+    ∃ S bc, C01.getStructuringElem dt A.shape.length arg = .ok (S, bc) ∧
+      C01.CrossBoxDisk A.shape.length S bc ∧
+      (locModelRaw isMin A S bc).toList = (allPos A.shape).map (locSpecAt isMin A (neighbours S bc)) ∧
+      ∀ q, inside A.shape q = true →
+        ((regModelRaw isMin A S bc).getD (ravelI A.shape q) false = true ↔ Regional isMin A (neighbours S bc) q) := by
+  have key : ∀ r : Int, C01.CrossBoxDisk A.shape.length (List.replicate A.shape.length 3)
+      (C01.crossElem A.shape.length r) := fun r => Or.inl ⟨r, rfl, rfl⟩
+  have fin : ∀ r : Int,
+      (locModelRaw isMin A (List.replicate A.shape.length 3) (C01.crossElem A.shape.length r)).toList =
+        (allPos A.shape).map (locSpecAt isMin A (neighbours (List.replicate A.shape.length 3) (C01.crossElem A.shape.length r))) ∧
+      ∀ q, inside A.shape q = true →
+        ((regModelRaw isMin A (List.replicate A.shape.length 3) (C01.crossElem A.shape.length r)).getD (ravelI A.shape q) false = true ↔
+          Regional isMin A (neighbours (List.replicate A.shape.length 3) (C01.crossElem A.shape.length r)) q) := by
+    intro r
+    refine ⟨?_, fun q hq => ?_⟩
+    · rw [locModelRaw_eq]; exact (C14_locmax_eq_spec_cross_box_disk isMin A _ _ (key r)).2
+    · rw [regModelRaw_eq]; exact C14_regional_eq_spec_cross_box_disk isMin A _ _ (key r) q hq
+  rcases harg with rfl | ⟨v, rfl⟩
+  · exact ⟨_, _, C01.getSE_none dt _, key 1, fin 1⟩
+  · exact ⟨_, _, C01.getSE_int dt _ v, key _, fin _⟩
+
+/-- `close_holes(ref)` with the default element and `regmax(f, 8)`: the elements the dispatch builds -/
+example : C01.getStructuringElem dtBool 2 .none = .ok ([3, 3], #[0, 1, 0, 1, 1, 1, 0, 1, 0]) ∧
+    C01.getStructuringElem (dtU 8) 2 (.int 8) = .ok ([3, 3], #[1, 1, 1, 1, 1, 1, 1, 1, 1]) ∧
+    [256, 0, -1].map (C01.castTo (dtU 8)) = [0, 0, 255] :=
+  ⟨by rfl, by rfl, by decide⟩
